@@ -76,7 +76,22 @@ func run(c *vk.Ctx, sc scenario, idx int) {
 	if sc.probePending {
 		hbInt, lims = 1, &session.IntLimits{Min: 1, Max: 60}
 	}
-	r, err := rig.NewStepRig(rig.StepCfg{Role: sc.role, HeartBtInt: hbInt, Limits: lims, CloseTimeout: sc.closeTO,
+	// every fourth scenario: the application watches Logout messages with two incoming and two outgoing observers
+	// registered before Session.Run, and takes them out again (in registration order) once the session is logged on
+	observers := idx%4 == 1
+	var obsIn, obsOut [2]int64
+	var before func(h *simplefixgo.DefaultHandler, s *session.Session)
+	if observers {
+		desc += " logout-observers-registered-before-Run-and-removed-after-logon"
+		replay["scenario"] = desc
+		before = func(h *simplefixgo.DefaultHandler, _ *session.Session) {
+			for k := 0; k < 2; k++ {
+				obsIn[k] = h.HandleIncoming("5", func([]byte) bool { return true })
+				obsOut[k] = h.HandleOutgoing("5", func(simplefixgo.SendingMessage) bool { return true })
+			}
+		}
+	}
+	r, err := rig.NewStepRig(rig.StepCfg{Role: sc.role, HeartBtInt: hbInt, Limits: lims, CloseTimeout: sc.closeTO, BeforeRun: before,
 		AfterRun: func(h *simplefixgo.DefaultHandler, s *session.Session) {
 			if sc.appEvent {
 				// the application's logout callback looks at the session, as a re-logon policy would
@@ -97,6 +112,13 @@ func run(c *vk.Ctx, sc scenario, idx int) {
 	if res := r.Inbound(p.Logon(hbInt, "0")); !res.Logged {
 		c.Inconclusive("no logon: " + desc)
 		return
+	}
+	if observers {
+		for k := 0; k < 2; k++ {
+			_ = r.H.RemoveIncomingHandler("5", obsIn[k])
+			_ = r.H.RemoveOutgoingHandler("5", obsOut[k])
+		}
+		c.Count("scenarios_with_logout_observers_removed_after_logon", 1)
 	}
 	for k := 0; k < sc.pre; k++ {
 		if k%2 == 0 {
